@@ -41,12 +41,21 @@ def os_makedirs():
 
 
 def run(cmd, timeout, cwd=None, env=None, input=None):
+    """run a command in its own process group; on timeout the whole group (make and its coqc children) is killed"""
+    import signal
     t0 = time.time()
+    p = subprocess.Popen(cmd, cwd=cwd, env=env, stdin=subprocess.PIPE if input is not None else None,
+                         stdout=subprocess.PIPE, stderr=subprocess.PIPE, text=True, start_new_session=True)
     try:
-        p = subprocess.run(cmd, cwd=cwd, env=env, input=input, capture_output=True, text=True, timeout=timeout)
-        return p.returncode, p.stdout, p.stderr, time.time() - t0
-    except subprocess.TimeoutExpired as e:
-        return 124, (e.stdout or b'').decode() if isinstance(e.stdout, bytes) else (e.stdout or ''), 'TIMEOUT', time.time() - t0
+        out, err = p.communicate(input=input, timeout=timeout)
+        return p.returncode, out, err, time.time() - t0
+    except subprocess.TimeoutExpired:
+        try:
+            os.killpg(p.pid, signal.SIGKILL)
+        except OSError:
+            pass
+        out, err = p.communicate()
+        return 124, out or '', (err or '') + 'TIMEOUT', time.time() - t0
 
 
 class Lock:
